@@ -134,6 +134,9 @@ def family(tag):
         # every free tree on 8 and 9 nodes under the scan orders of bctmc/trees.py (3354 labelled trees)
         from bctmc import trees
         _FAM[tag] = trees.shape_family(8) + trees.shape_family(9)
+    if tag == 'bintree8_und' and tag not in _FAM:
+        from bctmc import trees
+        _FAM[tag] = trees.shape_family(8)
     if tag not in _FAM:
         base = und_list() if tag.endswith('_und') else dir_list()
         kind = tag.split('_')[0]
